@@ -3,6 +3,7 @@ import ast
 
 from .. import util
 from ..interp import Interp, Path, exc_value, is_exc, show, strip_sites, subterms, NONE
+from .. import slots
 from ..report import Undecided
 from . import c01
 
@@ -58,7 +59,7 @@ def startup(chk):
             chk.bad(rule, run.qual, "run() calls runtime.accept() %d times" % len(ac), node=run.node, stmt="accept-count")
             ok = False
             continue
-        loaders = [(i, c) for i, c in ad if c[2] and c[2][0] == ("glob", LOAD_SERVICES)]
+        loaders = [(i, c) for i, c in ad if c[2] and c[2][0] == ("glob", slots.load_services(prog).qual)]
         if len(loaders) != 1:
             chk.bad(rule, run.qual, "run() does not adopt the configuration-loading coroutine exactly once (%d): the daemon stays up idle without its pipeline" % len(loaders), node=run.node, stmt="adopt-loader")
             ok = False
@@ -100,7 +101,7 @@ def startup(chk):
 def keep_alive(chk):
     prog = chk.program
     rule = "O13.2"
-    ls = prog.func(LOAD_SERVICES)
+    ls = slots.load_services(prog)
     name = ls.qual
     ok = True
     if not ls.is_async:
